@@ -1,0 +1,93 @@
+//go:build verif
+
+package io
+
+// Contracts for package utils/io, checked by /verif/govc (contract-based deductive verification).
+// This file is compiled only with -tags=verif. The //@ lines are the contracts; the Go functions
+// below are lemmas (verified like any function, calls use the callees' contracts) and canaries.
+
+func verifAssert(bool) {}
+func verifAssume(bool) {}
+
+//@ effectfree fmt\..* errors\.New github.com/pkg/errors\..* @/utils/log\..* @/utils/io\.GetCallerFileContext strconv\..*
+
+//@ func ToUint8
+//@ props C06 C28
+//@ requires #nonempty: len(b) >= 1
+//@ ensures result == b[0]
+
+//@ func ToInt64
+//@ props C06 C28
+//@ trusted "unsafe 8-byte little-endian read; only byte 0 is bounds-checked by the code"
+//@ pure
+//@ requires #nonempty: len(b) >= 1
+//@ requires #nooverread: len(b) >= 8
+//@ ensures result == sle64(b, 0)
+
+//@ func ToInt32
+//@ props C06 C28 C11
+//@ trusted "unsafe 4-byte little-endian read; only byte 0 is bounds-checked by the code"
+//@ pure
+//@ requires #nonempty: len(b) >= 1
+//@ requires #nooverread: len(b) >= 4
+//@ ensures result == sle32(b, 0)
+
+//@ func ToUInt32
+//@ props C06 C28 C09
+//@ trusted "unsafe 4-byte little-endian read; only byte 0 is bounds-checked by the code"
+//@ pure
+//@ requires #nonempty: len(b) >= 1
+//@ requires #nooverread: len(b) >= 4
+//@ ensures result == le32(b, 0)
+
+//@ func ToInt16
+//@ props C06 C28
+//@ trusted "unsafe 2-byte little-endian read; only byte 0 is bounds-checked by the code"
+//@ pure
+//@ requires #nonempty: len(b) >= 1
+//@ requires #nooverread: len(b) >= 2
+//@ ensures result == sle16(b, 0)
+
+//@ func ToInt8
+//@ props C06 C28
+//@ trusted "unsafe 1-byte read"
+//@ pure
+//@ requires #nonempty: len(b) >= 1
+//@ ensures result == sle8(b, 0)
+
+//@ func ToSystemTimezone
+//@ inline
+
+//@ func IndexToOffset
+//@ props C30 C08
+//@ ensures #spec: result == wrap64(wrap64((index-1)*recordSize) + Headersize)
+//@ ensures #exact: (1 <= index && index <= 366*86400 && 0 <= recordSize) ==> result == (index-1)*recordSize + Headersize
+
+//@ func dsFromBytes
+//@ props C28 C06
+//@ requires #hdr: len(buf) >= 1
+//@ requires #body: len(buf) >= 2 + buf[0]
+//@ ensures #cursor: cursor == 2 + buf[0]
+//@ ensures #type: ds.Type == buf[1+buf[0]]
+//@ ensures #namelen: len(ds.Name) == buf[0]
+
+//@ func ToString
+//@ props C28 C06
+//@ trusted "unsafe cast of the slice header to a string header"
+//@ pure
+//@ ensures len(result) == len(b)
+//@ ensures forall(i, 0, len(b), result[i] == b[i])
+
+//@ func DSVFromBytes
+//@ props C28 C06
+//@ requires #wf: buf == nil || (len(buf) >= 1 && gf_dsvWF(buf))
+//@ loop 0 invariant 0 <= i && i <= dsLen && 1 <= cursor && cursor <= len(buf)
+//@ ensures buf != nil ==> len(dataShape) == buf[0]
+
+func lemmaCanaryOffset(index int64, rs int32) {
+	verifAssert(IndexToOffset(index, rs) > IndexToOffset(index+1, rs)) // #canary
+}
+
+//@ lemma lemmaCanaryOffset
+//@ props CANARY
+//@ requires 1 <= index && index <= 1000 && 0 <= rs
